@@ -122,7 +122,7 @@ PROPS = {
     "C09": dict(
         title="Rotation, automorphism and (X^p-1) product are the ring maps for every p",
         module="SpqProofs.Properties.C09",
-        streams=dict(quick=[("kz_probe", "plain"), ("vz_box", "plain")], thorough=[("kz_probe", "plain"), ("vz_box", "plain"), ("md_prog", "plain")]),
+        streams=dict(quick=[("kz_probe", "plain"), ("kz_f64", "plain"), ("vz_box", "plain")], thorough=[("kz_probe", "plain"), ("kz_f64", "plain"), ("vz_box", "plain"), ("md_prog", "plain")]),
         proved="rotate/mulxp/automorphism (out of place) equal the closed coefficient formulas of X^p·a, X^p·a − a, a(X^p) for every nn, every p in Z (automorphism: nn = 2^t, odd p; result independent of prior output); in-place rotation and (X^p−1) equal the out-of-place maps for EVERY nn and p with the model's fuel proved sufficient; in-place automorphism equals the out-of-place one for every nn = 2^t (t ≤ 64: the C contract) and odd p, via (Z/2^t)^× = <−1>×<5>; composition laws (additive / multiplicative mod 2N)",
         not_proved="the bridge from the closed coefficient formulas to Mathlib's AdjoinRoot (X^N+1) is not formalised (the formulas are the textbook ones); double-precision variants are the same polymorphic definitions (tied by the probe stream on integer-valued doubles)",
         level_text="Lean 4 theorems for all N and all p, including the in-place cycle-leader walks (termination proved) and the 2-adic orbit structure of the in-place automorphism; exhaustive injective-probe correspondence with the real int64 and double kernels",
